@@ -561,6 +561,9 @@ Record cn_case := mkCn {
   cn_sclosed : list (N * bool);        (* stream closed events (stream, with error), sorted *)
   cn_rets : list (N * N);              (* API returns (request, class code), sorted by request *)
   cn_finals : list (N * N);            (* (stream, final_code) in opening order, measured by using the stream *)
+  cn_excused : list N;                 (* streams whose resume the broker refused, or whose resume exchange was cut
+                                          (the broker killed the link at a resume request / the stream's close request
+                                          never reached the broker): the only streams that may end closed *)
   cn_exact : bool                      (* false: only the property predicate is evaluated (schedule could not be read off) *)
 }.
 
@@ -590,8 +593,10 @@ Definition c05_ok (c : cn_case) : bool :=
   (* a fresh token on every attempt: attempt k carries token k, and nothing else was asked for *)
   list_eqb pair_eqb (cn_connects c) (iota_pairs (length (cn_connects c)) 0)
   && (N.of_nat (length (cn_connects c)) =? cn_tokens c)
-  (* every stream works on the current wire connection or was reported closed *)
-  && forallb (fun f => (snd f =? 0) || (snd f =? 2)) (cn_finals c)
+  (* every stream that was opened successfully works on the current wire connection at the end; it may
+     be reported closed (with the error) only if its resume was refused or its resume exchange was cut *)
+  && forallb (fun f => (snd f =? 0) || ((snd f =? 2) && existsb (N.eqb (fst f)) (cn_excused c))) (cn_finals c)
+  && forallb (fun e => snd e && existsb (N.eqb (fst e)) (cn_excused c)) (cn_sclosed c)
   && cn_resume_ids_ok c
   (* no request failed with a connection error; open and metadata calls succeeded *)
   && forallb (fun r => negb (snd r =? 2)) (cn_rets c)
